@@ -33,3 +33,99 @@ def declare_c23(E):
                loops={0: dict(inv=["0 <= self._channel_counter < 2**24", "chanid == self._channel_counter"],
                               variant="(ghost('free') - self._channel_counter) % 2**24")},
                returns="int", modifies=["self._channel_counter"], raises={})
+
+
+RUN_ITER = "paramiko.transport.Transport.run::loop#0"
+
+
+def declare_runloop(E, expected_packet_type="const:()"):
+    """one iteration of the dispatch loop in Transport.run, verified as a fragment (the loop body's real AST)"""
+    from contracts import packet, message
+    message.declare(E)
+    packet.declare(E)
+    E.declare_ghost(sent_count="int", last_sent="bytes", handler_calls="int")
+    E.declare_class("paramiko.transport.Transport", {
+        "packetizer": "obj:Packetizer", "_expected_packet": expected_packet_type,
+        "auth_handler": "opt[obj:AuthHandler]", "kex_engine": "opaque:KexEngine",
+        "channels_seen": "opaque:SeenMap", "saved_exception": "opt[opaque:Exc]",
+        "_handler_table": "from-init",
+    })
+    E.declare_class("paramiko.auth_handler.AuthHandler", {"transport": "obj:Transport"})
+    E.contract("paramiko.packet.Packetizer.need_rekey", returns="bool", modifies=[])
+    E.contract("paramiko.packet.Packetizer.complete_handshake", returns="none", modifies=[])
+    E.contract("paramiko.packet.Packetizer.read_message", returns="tuple[u8,obj:Message]",
+               ensures=["0 <= result[1].packet.tell() and result[1].packet.tell() <= len(result[1].packet.getvalue())"],
+               raises={"SSHException": "True", "EOFError": "True", "OSError": "True", "NeedRekeyException": "True"},
+               modifies=[])
+    E.contract(T + "_send_kex_init", returns="none", raises={"SSHException": "True", "EOFError": "True", "OSError": "True"},
+               modifies=["self.in_kex"])
+    E.contract(T + "_send_message", params={"data": "obj:Message"}, returns="none",
+               ghost={"sent_count": "ghost('sent_count') + 1", "last_sent": "data.packet.getvalue()"},
+               raises={"EOFError": {"when": "True", "ghost": {"send_failed": "True"}},
+                       "OSError": {"when": "True", "ghost": {"send_failed": "True"}},
+                       "SSHException": {"when": "True", "ghost": {"send_failed": "True"}}}, modifies=[])
+    E.declare_ghost(send_failed="bool")
+
+
+UNHANDLED = ("ptype != 2 and ptype != 1 and ptype != 4"          # IGNORE, DISCONNECT, DEBUG are handled inline
+             " and ptype not in self._handler_table and ptype not in self._channel_handler_table"
+             " and (True if isnone(self.auth_handler) else ptype not in self.auth_handler._handler_table)")
+
+
+GENERIC_RAISES = {"SSHException": "True", "EOFError": "True", "OSError": "True"}
+
+
+def generic_handlers(E):
+    """every dispatch target gets an 'anything allowed by the documented error classes' contract: properties about
+    one branch of the loop do not depend on what the other branches' handlers do"""
+    names = set()
+    t = E.tables["classes"]["paramiko.transport.Transport"]["attrs"]["_channel_handler_table"]
+    from pyvc.extract import dec
+    for k, v in dec(t).items():
+        names.add(v["v"])
+    for fi in list(E.src.funcs):
+        if fi.startswith("paramiko.transport.Transport._parse_") or fi.startswith("paramiko.auth_handler.AuthHandler._parse_"):
+            names.add(fi)
+    names.update([T + "_negotiate_keys", T + "_enforce_strict_kex"])
+    for qn in sorted(names):
+        if qn in E.contracts:
+            continue
+        mods = ["self.active", "self._expected_packet", "self.in_kex", "self.authenticated"] if qn.startswith(T) else []
+        E.contract(qn, returns="none", raises=dict(GENERIC_RAISES), modifies=mods,
+                   ghost={"handler_calls": "ghost('handler_calls') + 1"})
+    E.contract(T + "_ensure_authed", returns="opt[obj:Message]", modifies=[])
+    if "paramiko.transport.ChannelMap.get" not in E.contracts:
+        E.contract("paramiko.transport.ChannelMap.get", params={"chanid": "int"}, returns="opt[obj:Channel]", modifies=[])
+    E.contract("KexEngine.parse_next", argnames=["self", "ptype", "m"], returns="none", raises=dict(GENERIC_RAISES))
+    E.contract("SeenMap.__contains__", argnames=["self", "k"], returns="bool")
+
+
+def declare_c12(E):
+    declare(E)
+    declare_runloop(E)
+    generic_handlers(E)
+    E.inline("paramiko.auth_handler.AuthHandler._handler_table", "paramiko.auth_handler.AuthHandler._server_handler_table",
+             "paramiko.auth_handler.AuthHandler._client_handler_table")
+    # the fragment's own contract: state = established session, nothing pending in the key exchange
+    E.contract(RUN_ITER, params={"self": "obj:Transport"},
+               requires={"active": "self.active", "no_expected_kex_packet": "len(self._expected_packet) == 0",
+                         "nothing_read_yet": "not ghost('got_message') and not ghost('send_failed')"},
+               ghosts={"ptype": "int", "seqno": "int", "got_message": "bool", "sent_count": "int", "send_failed": "bool"},
+               ensures={
+                   "unhandled_answered_once_with_UNIMPLEMENTED_seqno":
+                       "implies(ghost('got_message') and unhandled_type(self, ghost('ptype')) and ghost('ptype') != 3,"
+                       " ghost('sent_count') == old(ghost('sent_count')) + 1"
+                       " and ghost('last_sent') == b'\\x03' + pack32(ghost('seqno')))",
+                   "UNIMPLEMENTED_itself_never_answered":
+                       "implies(ghost('got_message') and ghost('ptype') == 3 and unhandled_type(self, 3),"
+                       " ghost('sent_count') == old(ghost('sent_count')))",
+                   "session_continues": "implies(ghost('got_message') and unhandled_type(self, ghost('ptype')),"
+                                        " self.active and ghost('loop_exit') == 'end')",
+               },
+               raises={"SSHException": "not ghost('got_message') or not unhandled_type(self, ghost('ptype')) or ghost('send_failed')",
+                       "EOFError": "True", "OSError": "True"})
+    # read_message records what arrived (ghost) so that the postcondition can talk about it
+    c = E.contracts["paramiko.packet.Packetizer.read_message"]
+    c["ghost"] = {"ptype": "result[0]", "seqno": "result[1].seqno", "got_message": "True"}
+    c["ensures"].append("0 <= result[1].seqno and result[1].seqno < 2**32")
+    E.declare_ghost(ptype="int", seqno="int", got_message="bool")
